@@ -18,6 +18,7 @@ Not a property module (file name does not start with 'c<digits>').
 """
 import importlib
 import math
+import os
 import sys
 
 import numpy as np
@@ -45,6 +46,51 @@ _INPUT_STRATS = {
 }
 _INPUT_RANGES = {'vco': (0.05, 5.0), 'vvo': (1e-3, 1.0), 'alpha': (0.1, 0.5), 'zeta': (1e-2, 1e2),
                  'cf': (1e-8, 1e-4), 'cff': (5.0, 50.0)}
+
+
+def make_numba_cache_process_safe():
+    """numba's on-disk cache (numba/core/caching.py IndexDataCacheFile.save: load index -> pick the first unused data
+    file number -> write index -> write data) is not safe when several shard processes compile *different*
+    signatures of the same function into a cold cache at the same time: two of them pick the same data file name, one
+    index wins, and later loads return machine code compiled for another signature (observed: sporadic
+    `AssertionError: Sizes of heating_term_old, heating_term do not match` from calculate_terms in cold 16-shard runs,
+    never single-process).  Serialise save (exclusive) and load (shared) per index file with flock."""
+    try:
+        import fcntl
+        from numba.core import caching
+    except Exception:
+        return
+    cls = caching.IndexDataCacheFile
+    if getattr(cls, '_verif_locked', False):
+        return
+    orig_save, orig_load = cls.save, cls.load
+
+    def _locked(self, mode, fn, *args):
+        try:
+            fd = os.open(self._index_path + '.lock', os.O_CREAT | os.O_RDWR, 0o644)
+        except OSError:
+            return fn(self, *args)
+        try:
+            fcntl.flock(fd, mode)
+            return fn(self, *args)
+        finally:
+            try:
+                fcntl.flock(fd, fcntl.LOCK_UN)
+            finally:
+                os.close(fd)
+
+    def save(self, key, data):
+        return _locked(self, fcntl.LOCK_EX, orig_save, key, data)
+
+    def load(self, key):
+        return _locked(self, fcntl.LOCK_SH, orig_load, key)
+
+    cls.save = save
+    cls.load = load
+    cls._verif_locked = True
+
+
+make_numba_cache_process_safe()
 
 
 def weighted(strategies, weights):
